@@ -38,18 +38,28 @@ ASSUMPTIONS = ["'unloading has completed' = the awaitable returned by overlay.un
                "the endpoint itself stays open (other overlays may use it); only the overlay's own sockets must be closed"]
 REACH = ["unload_with_pending_tasks", "unload_with_open_exit_transports", "unload_with_outstanding_caches", "late_datagrams_delivered",
          "register_after_unload_refused", "tm_duplicate_name_refused", "tm_replace_ordered", "scenario:tunnel", "scenario:dht",
-         "scenario:attestation", "scenario:identity", "scenario:multi", "scenario:service"]
+         "scenario:attestation", "scenario:identity", "scenario:multi", "scenario:service", "scenario:dhtcrawl",
+         "script_operation_abandoned_after_unload"]
 
-SCN = ["community", "discovery", "dht", "dhtdiscovery", "tunnel", "hidden", "pex", "attestation", "identity", "multi", "service"]
+SCN = ["community", "discovery", "dht", "dhtdiscovery", "tunnel", "hidden", "pex", "attestation", "identity", "multi", "dhtcrawl",
+       "service"]
 STEPS = {"community": 5, "discovery": 3, "dht": 5, "dhtdiscovery": 7, "tunnel": 5, "hidden": 5, "pex": 5, "attestation": 3,
-         "identity": 3, "multi": 8, "service": 6}
+         "identity": 3, "multi": 8, "dhtcrawl": 3, "service": 6}
 
 
 def cases(tier: str, base_seed: int):  # noqa: ANN201
     n = 0
-    for scn in SCN:
+    # an unload in the middle of an application-driven DHT crawl (requests outstanding, candidates left)
+    for off in (0.02, 0.1, 0.5, 1.5, 4.0, 6.0):
+        n += 1
+        yield {"scenario": "dhtcrawl", "seed": base_seed + n, "knobs": {}, "node": 0, "step": 1, "offset": off}
+    for scn in [SCN[-1], *SCN[:-1]]:          # the slow full-IPv8 cases first, so that they overlap with everything else
         for step in range(STEPS[scn]):
             for node in ((0, 2) if tier == "quick" else (0, 1, 2, 3)):
+                if scn == "dhtcrawl" and node != 0:
+                    continue          # the other nodes of that scenario go offline
+                if scn == "service" and tier == "quick" and (step, node) not in ((1, 2), (4, 0)):
+                    continue
                 n += 1
                 yield {"scenario": scn, "seed": base_seed + n, "knobs": {}, "node": node, "step": step, "offset": 0.0}
     for i in itertools.count():
@@ -59,8 +69,8 @@ def cases(tier: str, base_seed: int):  # noqa: ANN201
             yield {"scenario": "tm", "seed": seed, "knobs": {"timer_jitter": rng.choice([0.0, 0.001])},
                    "ops": [_tm_op(rng) for _ in range(rng.choice([4, 8, 20]))]}
             continue
-        scn = rng.choice(SCN)
-        yield {"scenario": scn, "seed": seed, "node": rng.randrange(4), "step": rng.randrange(STEPS[scn]),
+        scn = rng.choice(SCN[:-1] if (tier == "quick" or i % 3) else SCN)
+        yield {"scenario": scn, "seed": seed, "node": 0 if scn == "dhtcrawl" else rng.randrange(4), "step": rng.randrange(STEPS[scn]),
                "offset": rng.choice([0.0, 0.003, 0.05, 0.4, 3.0]),
                "knobs": {"lat_jit": rng.choice([0.0, 0.05]), "loss": rng.choice([0.0, 0.0, 0.1]), "dup": rng.choice([0.0, 0.05]),
                          "timer_jitter": rng.choice([0.0, 0.001])}}
@@ -247,14 +257,14 @@ def execute(case: dict) -> dict:  # noqa: C901, PLR0915
             return any(getattr(fn, "__self__", None) is ov for ov in ovs)
 
         def guarded_call(fn, *a, **k):  # noqa: ANN001, ANN002, ANN003, ANN202
-            if (st["unloaded"] or st.get("unloading")) and _mine(fn) and st.get("phase") != "probe":
+            if st["unloaded"] and _mine(fn) and st.get("phase") != "probe":
                 raise _Stopped
             return inner_call(fn, *a, **k)
 
         inflight: list = []
 
         async def guarded_acall(fn, *a, **k):  # noqa: ANN001, ANN002, ANN003, ANN202
-            if (st["unloaded"] or st.get("unloading")) and _mine(fn):
+            if st["unloaded"] and _mine(fn):
                 raise _Stopped
             if not _mine(fn):
                 return await inner_acall(fn, *a, **k)
@@ -299,11 +309,9 @@ def execute(case: dict) -> dict:  # noqa: C901, PLR0915
         net.on_send.append(on_send)
 
         async def do_unload() -> None:
-            if st["unloaded"] or st.get("unloading"):
+            if st["unloaded"] or st.get("unloading") or victim.name in loop.dead:
                 return
             st["unloading"] = True
-            for t in list(st.get("inflight", ())):
-                t.cancel()
             pend = [f for _m, _n, f in tracked_futures() if not f.done()]
             if pend:
                 world.probe("unload_with_pending_tasks")
@@ -322,6 +330,10 @@ def execute(case: dict) -> dict:  # noqa: C901, PLR0915
                         victim.overlays.remove(ov)
             st["unloaded"] = True
             st["t"] = loop.time()
+            # operations the user still had in flight on this overlay are abandoned now (they ran on while the unload was in
+            # progress: whatever they managed to register with the overlay in that window is the overlay's business)
+            for t in list(st.get("inflight", ())):
+                t.cancel()
             check_now("right after unload() returned")
 
         def check_now(when: str) -> None:
@@ -369,6 +381,10 @@ def execute(case: dict) -> dict:  # noqa: C901, PLR0915
         if not st["unloaded"]:
             st["unloading"] = False
             await do_unload()
+        if not st["unloaded"]:
+            world.probe("victim_died_before_unload")       # nothing to judge: the machine crashed first
+            await scn.teardown(nodes)
+            return
         await asyncio.sleep(0.5)
         # ---- after unload: new tasks and caches are refused
         st["phase"] = "probe"
@@ -395,8 +411,10 @@ def execute(case: dict) -> dict:  # noqa: C901, PLR0915
                            delay=0.002 + mid * 1e-5, label="late")
         await asyncio.sleep(2.0)
         check_now("2 s after unload")
-        await asyncio.sleep(7200.0)
-        check_now("2 hours after unload")
+        # (a full ipv8_service.IPv8 network costs ~40 ms of wall time per virtual second: its tail is kept to 10 minutes)
+        tail = 600.0 if case["scenario"] == "service" else 7200.0
+        await asyncio.sleep(tail)
+        check_now(f"{tail:.0f} s after unload")
         victim_rest = [o for o in getattr(victim, "ovs", {}).values() if o not in ovs] if hasattr(victim, "ovs") else []
         del victim_rest
         await scn.teardown(nodes)
